@@ -41,6 +41,6 @@ Extraction "model.ml"
   SampleParse.parse_samples_file SampleParse.parse_samples_inline
   Create.init_sstate Create.create_run Create.rec_counts Create.rec_complete
   Stat.calculate Stat.view_run
-  Npy.write_npy Npy.read_npy Npy.parse_dict Npy.decode_value Npy.dec
+  Npy.write_npy Npy.write_npy_checked Npy.read_npy Npy.parse_dict Npy.decode_value Npy.dec
   Text.print_fixed Text.parse_f64 Text.write_text Text.read_text Text.detect_format Text.read_spectrum
   Stream.mk_reader Stream.read_npy_s Stream.read_to_end_s Stream.mk_writer Stream.write_pieces Stream.npy_pieces Stream.detect_stream.
